@@ -11,6 +11,8 @@ mod mon2;
 #[cfg(all(feature = "conc", feature = "hooks"))]
 mod proto;
 mod pmodel;
+#[cfg(feature = "conc")]
+mod pexplore;
 mod progs;
 mod props;
 
@@ -161,8 +163,15 @@ fn coordinator(id: &str, tier: &str) -> i32 {
         return 2;
     }
     // a violation must reproduce deterministically before it is reported
+    // (the first case of every distinct signature, i.e. of every (class, input) pair: these are
+    // the cases that are reported; enumeration order is simplest-first)
     let mut confirmed = Vec::new();
+    let mut seen_sig = std::collections::BTreeSet::new();
     for v in viols {
+        if !seen_sig.insert(v.signature.clone()) {
+            confirmed.push(v);
+            continue;
+        }
         match props::confirm(id, &v) {
             props::Confirm::Reproduced => confirmed.push(v),
             props::Confirm::NotReproduced => {
